@@ -16,14 +16,21 @@ type SchemaOpts struct {
 // Schema analysis, will classify the schema according to known
 // patterns.
 func Schema(opts SchemaOpts) (*AnalyzedSchema, error) {
+	return analyzeSchema(opts, nil)
+}
+
+// analyzeSchema analyzes a schema, knowing the chain of $ref currently being resolved
+// (so that schemas which are arrays or maps of themselves do not recurse forever).
+func analyzeSchema(opts SchemaOpts, parentRefs []string) (*AnalyzedSchema, error) {
 	if opts.Schema == nil {
 		return nil, ErrNoSchema
 	}
 
 	a := &AnalyzedSchema{
-		schema:   opts.Schema,
-		root:     opts.Root,
-		basePath: opts.BasePath,
+		schema:     opts.Schema,
+		root:       opts.Root,
+		basePath:   opts.BasePath,
+		parentRefs: parentRefs,
 	}
 
 	a.initializeFlags()
@@ -51,9 +58,10 @@ func Schema(opts SchemaOpts) (*AnalyzedSchema, error) {
 
 // AnalyzedSchema indicates what the schema represents
 type AnalyzedSchema struct {
-	schema   *spec.Schema
-	root     interface{}
-	basePath string
+	schema     *spec.Schema
+	root       interface{}
+	basePath   string
+	parentRefs []string
 
 	hasProps           bool
 	hasAllOf           bool
@@ -102,17 +110,25 @@ func (a *AnalyzedSchema) inherits(other *AnalyzedSchema) {
 
 func (a *AnalyzedSchema) inferFromRef() error {
 	if a.hasRef {
+		ref := a.schema.Ref.String()
+		for _, parent := range a.parentRefs {
+			if parent == ref {
+				// circular $ref, already being analyzed: nothing more to infer from it
+				return nil
+			}
+		}
+
 		sch := new(spec.Schema)
 		sch.Ref = a.schema.Ref
 		err := spec.ExpandSchema(sch, a.root, nil)
 		if err != nil {
 			return err
 		}
-		rsch, err := Schema(SchemaOpts{
+		rsch, err := analyzeSchema(SchemaOpts{
 			Schema:   sch,
 			Root:     a.root,
 			BasePath: a.basePath,
-		})
+		}, append(a.parentRefs[:len(a.parentRefs):len(a.parentRefs)], ref))
 		if err != nil {
 			// NOTE(fredbi): currently the only cause for errors is
 			// unresolved ref. Since spec.ExpandSchema() expands the
@@ -156,11 +172,11 @@ func (a *AnalyzedSchema) inferMap() error {
 
 	// maps
 	if a.schema.AdditionalProperties.Schema != nil {
-		msch, err := Schema(SchemaOpts{
+		msch, err := analyzeSchema(SchemaOpts{
 			Schema:   a.schema.AdditionalProperties.Schema,
 			Root:     a.root,
 			BasePath: a.basePath,
-		})
+		}, a.parentRefs)
 		if err != nil {
 			return err
 		}
@@ -183,11 +199,11 @@ func (a *AnalyzedSchema) inferArray() error {
 	a.IsArray = a.isArrayType() && (a.schema.Items == nil || a.schema.Items.Schemas == nil)
 	if a.IsArray && a.hasItems {
 		if a.schema.Items.Schema != nil {
-			itsch, err := Schema(SchemaOpts{
+			itsch, err := analyzeSchema(SchemaOpts{
 				Schema:   a.schema.Items.Schema,
 				Root:     a.root,
 				BasePath: a.basePath,
-			})
+			}, a.parentRefs)
 			if err != nil {
 				return err
 			}
